@@ -428,6 +428,47 @@ end
 /-- `SanitizerConfig::clean(&Html)`: the children of the fragment root, at depth 0. -/
 def clean (L : Lists) (c : Cfg) (roots : List Node) : List Node := cleanList L c 0 roots
 
+/-! ## The public builder (sanitizer_config.rs:70-397) -/
+
+/-- One call of a builder method of `SanitizerConfig`; `override = true` is
+`ListBehavior::Override`, `false` is `ListBehavior::Add`. -/
+inductive BuilderCall where
+  | replaceElements (l : List (Str × Str)) (override : Bool)
+  | removeElements (l : NameSet)
+  | removeReplyFallback
+  | ignoreElements (l : NameSet)
+  | allowElements (l : NameSet) (override : Bool)
+  | replaceAttributes (l : List (Str × List (Str × Str))) (override : Bool)
+  | removeAttributes (l : PerElem)
+  | allowAttributes (l : PerElem) (override : Bool)
+  | denySchemes (l : SchemeMap)
+  | allowSchemes (l : SchemeMap) (override : Bool)
+  | removeClasses (l : PerElem)
+  | allowClasses (l : PerElem) (override : Bool)
+  | maxDepth (d : Nat)
+  deriving Repr
+
+/-- Each builder method overwrites exactly one field (`self.field = Some(…); self`). -/
+def BuilderCall.apply (c : Cfg) : BuilderCall → Cfg
+  | .replaceElements l o => { c with replaceElements := some ⟨o, l⟩ }
+  | .removeElements l => { c with removeElements := some l }
+  | .removeReplyFallback => { c with removeReplyFallback := true }
+  | .ignoreElements l => { c with ignoreElements := some l }
+  | .allowElements l o => { c with allowElements := some ⟨o, l⟩ }
+  | .replaceAttributes l o => { c with replaceAttrs := some ⟨o, l⟩ }
+  | .removeAttributes l => { c with removeAttrs := some l }
+  | .allowAttributes l o => { c with allowAttrs := some ⟨o, l⟩ }
+  | .denySchemes l => { c with denySchemes := some l }
+  | .allowSchemes l o => { c with allowSchemes := some ⟨o, l⟩ }
+  | .removeClasses l => { c with removeClasses := some l }
+  | .allowClasses l o => { c with allowClasses := some ⟨o, l⟩ }
+  | .maxDepth d => { c with maxDepth := some d }
+
+/-- `SanitizerConfig::new()` (`none`), `strict()`, `compat()` / `with_mode(m)`, followed by any
+sequence of builder calls. -/
+def build (start : Option Mode) (calls : List BuilderCall) : Cfg :=
+  calls.foldl BuilderCall.apply { mode := start }
+
 /-! ## Containers for the behavioural extraction (T1) -/
 
 structure Universe where
